@@ -103,10 +103,13 @@ const (
 	sitGoneRoundVarOverField = sitCount + 3 // the builtin runs at the top of a for-in body whose previous round assigned the name further down
 	sitGoneStringLoopVar     = sitCount + 4
 	sitRoundValues           = sitCount + 5 // the builtin runs in every round of a for-in that gives the subject variable another value each time
-	sitCount11               = sitCount + 6
+	sitRenamedAwayField      = sitCount + 6 // the key was a field a moment ago: rename moved it to another name right before the builtin
+	sitRenamedAwayTag        = sitCount + 7
+	sitDroppedField          = sitCount + 8 // ... drop_key removed it right before the builtin
+	sitCount11               = sitCount + 9
 )
 
-var c11SitNames = []string{"variable", "field", "tag", "variable-over-field", "variable-over-tag", "absent", "gone-body-variable-over-field", "gone-block-variable-absent", "gone-loop-variable-over-tag", "variable-of-the-previous-round-over-field", "gone-variable-of-a-loop-over-a-string", "variable-with-another-value-every-round"}
+var c11SitNames = []string{"variable", "field", "tag", "variable-over-field", "variable-over-tag", "absent", "gone-body-variable-over-field", "gone-block-variable-absent", "gone-loop-variable-over-tag", "variable-of-the-previous-round-over-field", "gone-variable-of-a-loop-over-a-string", "variable-with-another-value-every-round", "field-renamed-away-just-before", "tag-renamed-away-just-before", "field-dropped-just-before"}
 
 type c11Tmpl struct {
 	Name    string
@@ -246,6 +249,22 @@ func c11Build(t c11Tmpl, sh c11Shape, sit int, val c11Val, base PointSpec) (*Pro
 		pre = append(pre, rt.ForIn("k", rt.Str("xy"), rt.Block(rt.Assign("=", rt.Id("q"), rt.Int(1)))))
 	case sitGoneRoundVarOverField:
 		pt.Fields[sh.Key] = "fieldval"
+	case sitRenamedAwayField, sitDroppedField:
+		if !val.Scalar || sh.Name == "string" {
+			return nil, false
+		}
+		pt.Fields[sh.Key] = val.Field
+		if sit == sitDroppedField {
+			pre = append(pre, rt.Call("drop_key", sh.Arg()))
+		} else {
+			pre = append(pre, rt.Call("rename", rt.Id("nw2"), sh.Arg()))
+		}
+	case sitRenamedAwayTag:
+		if !val.Str || sh.Name == "string" {
+			return nil, false
+		}
+		pt.Tags[sh.Key] = val.Field.(string)
+		pre = append(pre, rt.Call("rename", rt.Id("nw2"), sh.Arg()))
 	}
 	body := t.Build(sh.Arg)
 	if sit == sitRoundValues {
@@ -340,7 +359,7 @@ func init() {
 		ID:    "C11",
 		Level: "model_checking",
 		Rule: "49 call templates of the 15 builtins (every optional argument present/absent, identifier/attribute/string/expression arguments, all cast types, good and bad regular expressions, format strings with matching and mismatching verbs) " +
-			"x 6 key spellings (identifier, back-quoted, string literal, `_`, attribute expression, attribute expression with an index) x 12 subject situations (variable only, field only, tag only, variable shadowing a field, variable shadowing a tag, absent, and three in which a variable of that name has ceased to exist: local to a finished loop body over a field, local to a finished block with the key absent, variable of a finished for-in loop over a tag, the builtin at the top of a for-in body whose previous round assigned the name, variable of a finished loop over a string, a variable given another value in every round of a loop around the builtin) " +
+			"x 6 key spellings (identifier, back-quoted, string literal, `_`, attribute expression, attribute expression with an index) x 15 subject situations (variable only, field only, tag only, variable shadowing a field, variable shadowing a tag, absent, and three in which a variable of that name has ceased to exist: local to a finished loop body over a field, local to a finished block with the key absent, variable of a finished for-in loop over a tag, the builtin at the top of a for-in body whose previous round assigned the name, variable of a finished loop over a string, a variable given another value in every round of a loop around the builtin, a field / tag renamed away and a field dropped right before the builtin) " +
 			"x 32 subject values (int incl. the largest, float incl. 1e19, -0.0 and an integral one, bool, zero-padded / hex / underscored / exponent numeric strings, plain/padded/url-encoded/'+' without '%'/trailing '%'/percent-encoded UTF-8/undecodable/JSON/JSON with trailing text/numeric/float/bool/non-ASCII/tab+newline/regex-special/empty strings, list, map, nil) x 3 base points; " +
 			"oracle: the whole canonical final point (so every other key is checked untouched), captured standard output, probe trace of return values, of a plain-expression read of the subject key directly after the builtin and of three get_key read-backs, error flag — all equal to the reference builtins",
 		Assumptions: []string{"strings, regexp, net/url, fmt, encoding/json and spf13/cast are the trusted base the reference shares with the code", "unspecified cells: cast of collections / non-numeric strings, cast to \"string\", rename onto an existing key, set_tag from a construct without value"},
